@@ -362,6 +362,10 @@ theorem step_fail_unchanged {s s' : State} {op : Op} {r : Res} (hw : WF s)
     simp only [step] at e
     obtain ⟨⟨e1, v⟩, _, e⟩ := bind_ok e
     cases e; rfl
+  | normalizeSep b =>
+    simp only [step] at e
+    obtain ⟨h1, hcore, e⟩ := bind_ok e
+    cases e; cases hf
   | hashIgnoreCase c =>
     simp only [step] at e
     obtain ⟨v, _, e⟩ := bind_ok e
